@@ -92,6 +92,7 @@ func (st *state) validate(instance reflect.Value, schema *Schema, callerAnns *an
 
 	// We checked for nil schemas in [Schema.Resolve].
 	assert(schema != nil, "nil schema")
+	verifPoint("validate")
 
 	// Step through interfaces and pointers.
 	for instance.Kind() == reflect.Pointer || instance.Kind() == reflect.Interface {
@@ -705,6 +706,7 @@ func (rs *Resolved) ApplyDefaults(instancep any) error {
 // of object properties recursively.
 func (st *state) applyDefaults(instancep reflect.Value, schema *Schema) (err error) {
 	defer wrapf(&err, "applyDefaults: schema %s, instance %v", st.rs.schemaString(schema), instancep)
+	verifPoint("applyDefaults")
 
 	schemaInfo := st.rs.resolvedInfos[schema]
 	instance := instancep.Elem()
@@ -891,6 +893,7 @@ func structPropertiesOf(t reflect.Type) propertyMap {
 	if props, ok := structProperties.Load(t); ok {
 		return props.(propertyMap)
 	}
+	verifPoint("cache-miss:structProperties")
 	props := map[string]reflect.StructField{}
 	for _, sf := range reflect.VisibleFields(t) {
 		if sf.Anonymous {
